@@ -9,5 +9,6 @@ func init() {
 			ruleHandoff(r)
 			ruleRWMemstore(r)
 			ruleReaderRebuilt(r)
+			ruleValueBuffersImmutable(r)
 		})
 }
